@@ -121,6 +121,8 @@ class FakeTransport(asyncio.BaseTransport):
         self.idx = idx
         self.protocol = protocol
         self.closed = False
+        self.close_raises = False
+        self._raised_once = False
         self.closed_at = None
         self.lost_reported = False
         self.close_calls = []
@@ -133,6 +135,11 @@ class FakeTransport(asyncio.BaseTransport):
 
     def close(self):
         self.close_calls.append(self.world.loop.time())
+        if self.close_raises and self.closed and not self._raised_once:
+            # e.g. a serial adapter that was unplugged: closing the dead transport fails. Only the first close() after the
+            # loss raises - that is the protocol's own call inside connection_lost(); later calls (manager.close()) succeed.
+            self._raised_once = True
+            raise OSError("fake transport: close() on a dead connection failed")
         if not self.closed:
             self.closed = True
             self.closed_at = self.world.loop.time()
@@ -207,7 +214,9 @@ class World:
         protocol.connection_made(tr)
         self.event("attempt_ok", n)
         if lifetime is not None:
-            self.loop.call_later(lifetime, tr.lose)
+            if lifetime < 0:  # negative lifetime: lost after |lifetime| seconds AND close() on the dead transport raises
+                tr.close_raises = True
+            self.loop.call_later(abs(lifetime), tr.lose)
         return tr, protocol
 
 
